@@ -148,7 +148,7 @@ func ruleOpenOrder(r *Run, p *Program, rule string) {
 		wk.From(lockCall)
 		okv := true
 		for _, ret := range returnsOf(f) {
-			if wk.Visited[ret] && !isFailureReturn(f, ret) {
+			if wk.succ(f, ret) {
 				okv = false
 				r.bad(rule, "pogreb.Open:recovers("+calleeKey(&c.Call)+")", p.Pos(instrPos(ret)), "Open can succeed on a directory whose lock file pre-existed without "+calleeKey(&c.Call)+": an unclean shutdown goes unrecovered", wk.PathTo(p, ret)...)
 			}
@@ -355,7 +355,7 @@ func ruleC03WriteAhead(r *Run, p *Program, rule string) {
 			w.From(logPut)
 			okv := true
 			for _, ret := range returnsOf(f) {
-				if w.Visited[ret] && !isFailureReturn(f, ret) {
+				if w.succ(f, ret) {
 					okv = false
 				}
 			}
@@ -485,66 +485,112 @@ func ruleC04SealAfterReplay(r *Run, p *Program, rule string) {
 	}
 	r.fn(funcKey(f))
 	sl := sealers(p)
-	var seals []ssa.Instruction
-	instrsOf(f, func(in ssa.Instruction) {
-		switch x := in.(type) {
-		case *ssa.Call:
-			if sl[calleeKey(&x.Call)] {
-				seals = append(seals, x)
-			}
-		case *ssa.Store:
-			if fieldName(x.Addr) == "pogreb.segmentMeta.Full" {
-				seals = append(seals, x)
+	all, _ := allNodes(p, f)
+	type sealAt struct {
+		n  Node
+		in ssa.Instruction
+	}
+	var seals []sealAt
+	for nd := range all.Reached {
+		// seals made by recover itself or by a helper extracted from it (not inside the sealing function)
+		inSealer := false
+		for c := nd.Ctx; c != nil; c = c.Parent {
+			if sl[funcKey(c.Fn)] {
+				inSealer = true
 			}
 		}
-	})
-	if !r.anchor(rule, "sealing of replayed segments in recover", len(seals) > 0) {
+		switch x := nd.In.(type) {
+		case *ssa.Call:
+			if sl[calleeKey(&x.Call)] && !inSealer {
+				// only seals of replayed segments (elements of a []*segment), not e.g. the rollover seal of datalog.curSeg
+				// that is statically reachable through the replay of a delete record
+				isElem := false
+				for _, a := range x.Call.Args {
+					if isSegmentsSliceElem(accessPath(nil, a).Root) || isSegmentsSliceElem(a) {
+						isElem = true
+					}
+				}
+				if isElem {
+					seals = append(seals, sealAt{nd, x})
+				}
+			}
+		case *ssa.Store:
+			if fieldName(x.Addr) == "pogreb.segmentMeta.Full" && !inSealer && isSegmentsSliceElem(accessPath(nil, x.Addr).Root) {
+				seals = append(seals, sealAt{nd, x})
+			}
+		}
+	}
+	if !r.anchor(rule, "sealing of replayed segments under recover", len(seals) > 0) {
 		return
 	}
-	for _, s := range seals {
+	for _, sa := range seals {
+		g := sa.n.Ctx.Fn
+		s := sa.in
 		inLoop := inCycle(s.Block())
 		// guarded by index < len(segments)-1
-		bound := controlledBy(f, s, func(c *Cond) bool {
+		bound := controlledBy(g, s, func(c *Cond) bool {
 			if c.Op != token.LSS || !c.Pos {
 				return false
 			}
-			bo, ok := strip(c.Y).(*ssa.BinOp)
-			if !ok || bo.Op != token.SUB {
-				return false
+			for _, src := range sources(c.Y) {
+				if bo, ok := strip(src).(*ssa.BinOp); ok && bo.Op == token.SUB {
+					if k, isk := constInt(bo.Y); isk && k == 1 {
+						return true
+					}
+				}
 			}
-			k, isk := constInt(bo.Y)
-			return isk && k == 1
+			return false
 		})
-		r.check(inLoop && bound, rule, funcKey(f)+":seal-all-but-newest", p.Pos(instrPos(s)), "every replayed segment except the newest (index < len-1 of the oldest-first order) is sealed", "recovery does not seal exactly all segments but the newest: later writes may be appended to a segment that is not the newest in sequence order, and the next recovery replays them before older records")
-	}
-	// every success return of recover passes the sealing loop's exit
-	okv := true
-	w := &Walk{Fn: f, SkipEdge: func(b *ssa.BasicBlock, k int) bool { return false }}
-	w.From()
-	_ = w
-	// the order sealed is the order replayed
-	for _, s := range seals {
+		r.check(inLoop && bound, rule, "(*pogreb.DB).recover:seal-all-but-newest", p.Pos(instrPos(s)), "every replayed segment except the newest (index < len-1 of the oldest-first order) is sealed", "recovery does not seal exactly all segments but the newest (by position in the oldest-first replay order): later writes may be appended to a segment that is not the newest in sequence order, and the next recovery replays them before older records")
+		// the segment sealed is an element of the replayed order
 		c, ok := s.(*ssa.Call)
 		if !ok {
 			continue
 		}
 		from := false
 		for _, a := range c.Call.Args {
-			for _, src := range sources(a) {
-				if ld, ok := src.(*ssa.UnOp); ok {
-					if ia, ok := ld.X.(*ssa.IndexAddr); ok {
-						for _, s2 := range sources(ia.X) {
-							if cc, ok := s2.(*ssa.Call); ok && calleeKey(&cc.Call) == "(*pogreb.datalog).segmentsBySequenceID" {
-								from = true
+			if elemOfReplayOrder(sa.n.Ctx, a, 0) {
+				from = true
+			}
+		}
+		r.check(from, rule, "(*pogreb.DB).recover:seals-replayed-order", p.Pos(instrPos(s)), "the segments sealed are elements of the oldest-first order that was replayed", "the segments sealed after replay are not taken from the replayed oldest-first order")
+	}
+}
+
+// elemOfReplayOrder: v is an element of the slice returned by segmentsBySequenceID (possibly passed down as a parameter).
+func elemOfReplayOrder(ctx *Ctx, v ssa.Value, d int) bool {
+	if d > 6 {
+		return false
+	}
+	for _, src := range sources(v) {
+		ld, ok := src.(*ssa.UnOp)
+		if !ok {
+			continue
+		}
+		ia, ok := ld.X.(*ssa.IndexAddr)
+		if !ok {
+			continue
+		}
+		for _, s2 := range sources(ia.X) {
+			switch x := s2.(type) {
+			case *ssa.Call:
+				if calleeKey(&x.Call) == "(*pogreb.datalog).segmentsBySequenceID" {
+					return true
+				}
+			case *ssa.Parameter:
+				if ctx != nil && ctx.Parent != nil && ctx.Site != nil && ctx.Fn == x.Parent() {
+					cc := callOf(ctx.Site)
+					idx := paramIndex(x)
+					if !cc.IsInvoke() && idx >= 0 && idx < len(cc.Args) {
+						for _, s3 := range sources(cc.Args[idx]) {
+							if c3, ok := s3.(*ssa.Call); ok && calleeKey(&c3.Call) == "(*pogreb.datalog).segmentsBySequenceID" {
+								return true
 							}
 						}
 					}
 				}
 			}
 		}
-		if !from {
-			okv = false
-		}
 	}
-	r.check(okv, rule, funcKey(f)+":seals-replayed-order", p.Pos(f.Pos()), "the segments sealed are elements of the oldest-first order that was replayed", "the segments sealed after replay are not taken from the replayed oldest-first order")
+	return false
 }
